@@ -234,6 +234,16 @@ func statements() []Stmt {
 	add("read", "join_on", "table_mixed/col_db", "SELECT db.g1.name FROM g1 JOIN db.g2 ON db.g1.id = db.g2.id")
 	add("write", "update", "table_bare/col_mixed", "UPDATE g1 SET name = 'x' WHERE db.g1.id = 1")
 	add("write", "delete", "table_db/col_bare_upper", "DELETE FROM DB.G1 WHERE ID = 1")
+	// comparisons with the literal on the LEFT and the (qualified) column on the right, every
+	// comparison operator (added after seeded change c04-2 was missed: the value-op-column
+	// handler is a separate code path from column-op-value)
+	for _, op := range []string{"=", "<>", "<", "<=", ">", ">="} {
+		add("write", "update_lit_left", "table_db/col_db", fmt.Sprintf("UPDATE db.g1 SET name = 'x' WHERE 5 %s db.g1.id", op))
+		add("write", "delete_lit_left", "table_db/col_db", fmt.Sprintf("DELETE FROM db.g1 WHERE 5 %s db.g1.id", op))
+		add("read", "select_lit_left", "table_db/col_db", fmt.Sprintf("SELECT name FROM db.g1 WHERE 5 %s db.g1.id", op))
+		add("read", "select_lit_left", "table_bare/col_table", fmt.Sprintf("SELECT name FROM g1 WHERE 5 %s g1.id", op))
+		add("write", "update_lit_left", "table_bare/col_bare", fmt.Sprintf("UPDATE g1 SET name = 'x' WHERE 5 %s id", op))
+	}
 	return out
 }
 
